@@ -234,8 +234,10 @@ def do_check(args, prop, tier, scratch, t_start):
     runs = max(1, int(round(leg['runs'] * args.runs_scale)))
     pairs = [[i, kernel.derive_seed(args.seed, f"{prop}/{leg['name']}", i)]
              for i in range(runs)]
-    w = max(1, int(total_workers * leg.get('weight', 1) / weight_sum))
-    w = min(w, leg.get('max_workers', 16))
+    w = leg.get('max_workers') or max(
+        1, int(total_workers * leg.get('weight', 1) / weight_sum))
+    if args.workers:
+      w = max(1, int(round(w * args.workers / plans.TOTAL_WORKERS)))
     b = Batch(scratch, leg, prop, tier, pairs, w, args.repo,
               hashseed=args.hashseed)
     batches.append((leg, b, pairs))
